@@ -211,3 +211,16 @@ func Widen(b uint32, c uint64) (uint64, uint32, uint64, float32) {
 	z = 0
 	return math.Float64bits(float64(f)), math.Float32bits(f), math.Float64bits(math.Float64frombits(c)), z
 }
+func SortDesc(l []int32) ([]int32, int32) {
+	var v []int32
+	for _, x := range l {
+		v = append(v, x)
+	}
+	sort.Slice(v, func(i, j int) bool { return v[i] > v[j] })
+	s := int32(0)
+	for k := len(v) - 1; k >= 0; k-- {
+		s = s*3 + v[k]
+	}
+	return v, s
+}
+func StrOrder(a, b string) (bool, bool, bool, bool) { return a < b, a <= b, a > b, a >= b }
